@@ -169,4 +169,13 @@ def run(ctx):
         ctx.count("sweep:cases")
         check_equation(ctx, {"text": t, "pre": [], "family": "sweep"})
     ctx.info["template_sweep_size"] = len(texts)
+    # one edit away from every equation template (operator, leaf kind, operand order): near-miss shapes
+    near = [t for t in G.neighbour_texts(["BM"]) if "=" in t]
+    for i, t in enumerate(near):
+        if i % ctx.nshards != ctx.shard:
+            continue
+        ctx.count("evaluations")
+        ctx.count("near-miss:cases")
+        check_equation(ctx, {"text": t, "pre": [], "family": "near-miss"})
+    ctx.info["near_miss_sweep_size"] = f"{len(near)} equations one edit away from a balanced-move template"
     hyp_run(ctx, "equations", equation_case(), check_equation, ctx.n(1500, 10000))
